@@ -1325,3 +1325,82 @@ func (c *Ctx) sitesOrHelper(fn *ssa.Function, spec string) []ssa.CallInstruction
 	}
 	return out
 }
+
+// rulesC05name: whether a handler may veto is decided by the phase it is
+// called in, never by how its name ends.
+func (c *Ctx) rulesC05name() {
+	c.rule("C05.name", "the dispatch path (handle, processHandlers, newHandlerCallMap/Struct, handlerLoop) does not branch on strings.HasSuffix(<handler name>, \"State\"/\"End\"): states may be called FooEnd / FooState, and then the negotiation handlers AFooEnd / FooEndFooEnd end in the final suffix — classified by name their veto is ignored and the vetoed transition is applied")
+	n := 0
+	for _, k := range []string{pm + ":Machine.handle", pm + ":Machine.processHandlers", pm + ":newHandlerCallMap", pm + ":newHandlerCallStruct", pm + ":Machine.handlerLoop"} {
+		f := c.fnOpt(k)
+		if f == nil {
+			continue
+		}
+		n++
+		bad := ""
+		pos := f.Pos()
+		var visit func(g *ssa.Function)
+		visit = func(g *ssa.Function) {
+			for _, a := range g.AnonFuncs {
+				visit(a)
+			}
+			for _, b := range g.Blocks {
+				for _, ins := range b.Instrs {
+					call, ok := ins.(*ssa.Call)
+					if !ok {
+						continue
+					}
+					fo := calleeObj(&call.Call)
+					if fo == nil || fo.Pkg() == nil || fo.Pkg().Path() != "strings" || fo.Name() != "HasSuffix" || len(call.Call.Args) != 2 {
+						continue
+					}
+					k, ok := call.Call.Args[1].(*ssa.Const)
+					if !ok || k.Value == nil {
+						continue
+					}
+					sv := k.Value.ExactString()
+					if sv != `"State"` && sv != `"End"` {
+						continue
+					}
+					// used as a branch condition?
+					used := false
+					valueUses(call, 4, func(u ssa.Instruction) {
+						if _, ok := u.(*ssa.If); ok {
+							used = true
+						}
+					})
+					if used {
+						bad, pos = "branches on strings.HasSuffix(…, "+sv+")", call.Pos()
+					}
+				}
+			}
+		}
+		visit(f)
+		c.check(bad == "", "C05.name", k+" classifies handlers by phase, not by name suffix", pos, bad)
+	}
+	if n < 3 {
+		c.undecided(fmt.Sprintf("C05.name: only %d dispatch functions found", n))
+	}
+}
+
+// valueUses walks the users of v (through phis, unops, binops) up to a depth.
+func valueUses(v ssa.Value, depth int, fn func(ssa.Instruction)) {
+	seen := map[ssa.Value]bool{}
+	var walk func(v ssa.Value, d int)
+	walk = func(v ssa.Value, d int) {
+		if seen[v] || d > depth || v.Referrers() == nil {
+			return
+		}
+		seen[v] = true
+		for _, r := range *v.Referrers() {
+			fn(r)
+			if rv, ok := r.(ssa.Value); ok {
+				switch rv.(type) {
+				case *ssa.Phi, *ssa.UnOp, *ssa.BinOp:
+					walk(rv, d+1)
+				}
+			}
+		}
+	}
+	walk(v, 0)
+}
